@@ -357,6 +357,9 @@ def dataset_spec(draw, max_loci=3, max_snvs=5, max_samples=3, max_reads=25, pair
                     fl = {}
                     if flags and draw(st.integers(0, 3)) == 0:
                         fl[draw(st.sampled_from(["dup", "qcfail", "supp", "secondary", "unmapped", "reverse"]))] = True
+                        # reads carrying several exclusion flags: each keep option lifts only its own exclusion
+                        while draw(st.integers(0, 2)) == 0:
+                            fl[draw(st.sampled_from(["dup", "qcfail", "supp"]))] = True
                     read["flag"] = fl
                     b["reads"].append(read)
                     # mate sharing the qname, overlapping or not
